@@ -269,7 +269,7 @@ let handle toks =
   | ["u_mod"; src; eid; flt; extra; dom; tgt; op; agg; key; srca] ->
     let u = ub (int_of_string src) in
     let m = { m_filter = zi flt; m_extra = oz extra; m_domain = zi dom; m_tgt_attr = zi tgt; m_op = zi op;
-              m_aggmode = zi agg; m_aggkey = oz key; m_src_attr = zi srca } in
+              m_aggmode = zi agg; m_aggkey = oz key; m_src_attr = zi srca; m_py = zi "0" } in
     u.effects <- upd (zi eid) (fun e -> { e with e_mods = e.e_mods @ [m] }) u.effects; "ok"
   | ["u_type"; src; tid; grp; cat; def] ->
     let u = ub (int_of_string src) in
